@@ -52,6 +52,8 @@ Stmt(t) ==
       \* recursion that ends through a condition on the parameter: m1(p - 1) inside `.if p`
       [] t = "AP1d" -> [k |-> "apply", n |-> "m1", as |-> <<[k |-> "bin", o |-> "-", l |-> I("p"), r |-> N(1)]>>]
       [] t = "AP1n2" -> [k |-> "apply", n |-> "m1", as |-> <<N(2)>>]
+      \* two names that differ only in letter case are two names
+      [] t = "Lq" -> Lab("q") [] t = "LQ" -> Lab("Q") [] t = "DLq" -> Dat("dl", I("q")) [] t = "DLQ" -> Dat("dl", I("Q"))
       [] t = "SPa" -> [k |-> "splice", p |-> "a"]
       [] t = "AP2na" -> [k |-> "apply", n |-> "m2", as |-> <<N(1), I("a")>>]      \* second argument named like the first parameter
       [] t = "AP2ab" -> [k |-> "apply", n |-> "m2", as |-> <<I("b"), N(2)>>]
@@ -91,6 +93,9 @@ AlphaSeq ==
       \* .include_ips among position moves, scopes, loops; delta a literal or a constant defined before / after
       [] Family = "ipsfam" -> <<"IPS", "IPSc", "C3", "DB", "S3", "{", "}", "FOR02{", "La", "DLa", "A1">>
       [] Family = "recur" -> <<"M1{", "IFp{", "}", "DBp", "AP1d", "AP1n2">>
+      [] Family = "caselabels" -> <<"Lq", "LQ", "DLq", "DLQ", "DB", "{", "}">>
+      \* a *= to the very address relocated code has reached (@= ROM), then more bytes
+      [] Family = "moves2" -> <<"A1", "DB", "S5", "S3", "La", "DLa">>
       [] Family = "tiny"   -> <<"La", "DB", "DLa", "{", "}", "S3">>
 Alphabet == Range(AlphaSeq)
 TokIndex(t) == CHOOSE j \in 1..Len(AlphaSeq) : AlphaSeq[j] = t
@@ -134,7 +139,7 @@ OpenStack(q, p, stk) == IF p > Len(q) THEN stk
 ElseAllowed(q) == LET stk == OpenStack(q, 1, <<>>) IN stk # <<>> /\ stk[Len(stk)] = "if"
 
 \* the name a token defines in the scope it stands in ("" if none)
-DefName(t) == CASE t \in {"La", "Ea7", "A5"} -> "a" [] t = "Lb" -> "b" [] t = "Ei7" -> "i"
+DefName(t) == CASE t \in {"La", "Ea7", "A5"} -> "a" [] t = "Lb" -> "b" [] t = "Ei7" -> "i" [] t = "Lq" -> "q" [] t = "LQ" -> "Q"
                 [] t \in {"Lc", "C10", "C1234", "C3", "Ec5", "Eca", "Ec1234"} -> "c" [] OTHER -> ""
 \* names defined so far in each open scope (a stack); re-definition in one scope is outside the statements,
 \* so such token strings are not extended (they would all be `unspec`)
